@@ -357,7 +357,11 @@ def d45(ctx, rep, prog):
     pd = ctx.item('struct', 'ParsedData')
     ra = ctx.fnx('reconcile_aliases', file='reconcile.rs')
     aa = ctx.fn('ParsedData::add_assign', file='parser.rs')
-    appended = [f['name'] for f in pd['fields'] if f['ty'].startswith('Vec<') and any(c.get('f') in ('append', 'extend', 'extend_from_slice') and vt.show(c.get('recv')).endswith('self.' + f['name']) for c in aa['calls'])]
+    # the vectors that hold items of both operands after `ParsedData += ParsedData` (in-place append/extend, or a rebuilt value)
+    from .. import parser_rules as pr
+    appended = [f['name'] for f in pd['fields'] if f['ty'].startswith('Vec<') and (
+        any(c.get('f') in ('append', 'extend', 'extend_from_slice') and vt.show(c.get('recv')).endswith('self.' + f['name']) for c in aa['calls'])
+        or {'self', 'rhs'} <= (pr.merge_sides(ctx, f['name']) or set()))]
     rep.floor('D5', 'vectors appended by AddAssign', len(appended), 4)
     for v in appended:
         site = {'file': ra['file'], 'line': ra['line']}
